@@ -332,3 +332,8 @@ patch("s-c16f-table-size-zero", "seeded/C16-F/patch.diff", "C16.R6")
 patch("s-c17e-stale-next-link", "seeded/C17-E/patch.diff", "C17.R8")
 patch("s-c19e-deadline-before-pop", "seeded/C19-E/patch.diff", "C19.R4")
 patch("s-c18f-lock-held-on-error", "seeded/C18-F/patch.diff", "C18.X4")
+patch("s-c01h-task-request-not-reset", "seeded/C01-H/patch.diff", "C01.R16")
+patch("s-c02h-arg-read-after-push", "seeded/C02-H/patch.diff", "C02.R3")
+patch("s-c07h-stale-wrap-link", "seeded/C07-H/patch.diff", "C07.R8")
+patch("s-c08g-local-stream-not-cleared", "seeded/C08-G/patch.diff", "C08.R6")
+patch("s-c09g-reset-reinits-waitlist", "seeded/C09-G/patch.diff", "C09.X6")
